@@ -82,6 +82,8 @@ def sim_spec(name):
         base['algorithm_params'] = {'trunc_params': {'chi_max': 8, 'svd_min': 1e-10}, 'dt': 0.05, 'N_steps': 2}
         if name.startswith('tebd'):
             base['algorithm_params']['order'] = 2
+            base['algorithm_params']['trunc_params'] = {'chi_max': 2, 'svd_min': 1e-10}  # truncating: the error measurements are non-trivial
+            base['algorithm_params']['max_trunc_err'] = None
         if name.startswith('expmpo'):
             base['algorithm_params'].update({'compression_method': 'SVD', 'approximation': 'II', 'order': 1})
     return base, ext
